@@ -652,6 +652,80 @@ func init() {
 		ec.noteFailure(Not(Eq(err, Int(0))))
 		return &TupleV{Vs: []Value{v, err}}
 	}
+	// net/url.Parse (getScheme): control bytes are rejected; the URL is absolute iff it starts with
+	// [A-Za-z][A-Za-z0-9+.-]* ":" ; Scheme is that prefix lower-cased.
+	stdModels["net/url.Parse"] = func(ec *evalCtx, call *ast.CallExpr, recv Value, args []Value) Value {
+		s := scalar(args[0])
+		err := App("url.Parse.err", SInt, s)
+		scheme := App("url.scheme", SStr, s)
+		e := ec.e()
+		noctl := e.langs.Named("GO_URL_NO_CTL", `[^\x00-\x1f\x7f]*`)
+		has := e.langs.Named("GO_URL_HAS_SCHEME", `[A-Za-z][A-Za-z0-9+.\-]*:.*`)
+		ec.st.Assume(Implies(Eq(err, Int(0)), e.inL(s, noctl)))
+		ec.st.Assume(Implies(Eq(err, Int(0)), Eq(Not(Eq(scheme, Str(""))), e.inL(s, has))))
+		ec.noteFailure(Not(Eq(err, Int(0))))
+		u := &StructV{Names: []string{"Scheme", "$src"}, F: map[string]Value{"Scheme": scheme, "$src": s}}
+		e.trusted["std:net/url.Parse (rejects ASCII control bytes; absolute iff [A-Za-z][A-Za-z0-9+.-]*: prefix; Scheme = that prefix lower-cased)"] = true
+		return &TupleV{Vs: []Value{&PtrV{Nil: Not(Eq(err, Int(0))), Obj: e.allocObj(ec.st, u)}, err}}
+	}
+	stdModels["(*net/url.URL).IsAbs"] = func(ec *evalCtx, call *ast.CallExpr, recv Value, args []Value) Value {
+		sv := ec.st.heap[recv.(*PtrV).Obj].(*StructV)
+		return Not(Eq(scalar(sv.F["Scheme"]), Str("")))
+	}
+	stdModels["strings.ContainsAny"] = func(ec *evalCtx, call *ast.CallExpr, recv Value, args []Value) Value {
+		s, chars := scalar(args[0]), scalar(args[1])
+		if !chars.IsStr() {
+			panic(unsupported("ContainsAny with non-constant character set"))
+		}
+		for i := 0; i < len(chars.Str); i++ {
+			if chars.Str[i] >= 0x80 {
+				panic(unsupported("ContainsAny with non-ASCII characters"))
+			}
+		}
+		var set byteSet
+		for i := 0; i < len(chars.Str); i++ {
+			set.add(chars.Str[i])
+		}
+		name := fmt.Sprintf("NONE_OF_%x_STAR", chars.Str)
+		if !ec.e().langs.Has(name) {
+			ec.e().langs.Define(name, reStar(reSet(set.not())), fmt.Sprintf("(code) strings without any of %q", chars.Str))
+		}
+		return Not(ec.e().inL(s, name))
+	}
+	stdModels["strings.ToLower"] = func(ec *evalCtx, call *ast.CallExpr, recv Value, args []Value) Value {
+		s := scalar(args[0])
+		if s.IsStr() {
+			return Str(strings.ToLower(s.Str))
+		}
+		r := App("strings.ToLower", SStr, s)
+		ec.st.Assume(Eq(StrLen(r), StrLen(s))) // holds for the ASCII-only languages below; used only together with them
+		// for every ASCII-only language the argument is known to be in, the result is in its lower-case image
+		seen := map[string]bool{}
+		var walk func(t *Term)
+		walk = func(t *Term) {
+			if t.Op == "app" && strings.HasPrefix(t.Name, "inL:") && len(t.Args) == 1 && t.Args[0].Key() == s.Key() {
+				ln := strings.TrimPrefix(t.Name, "inL:")
+				if !seen[ln] {
+					seen[ln] = true
+					if img, ok := lowerImage(ec.e().langs.Get(ln)); ok {
+						name := "LOWER_" + ln
+						if !ec.e().langs.Has(name) {
+							ec.e().langs.Define(name, img, "(code) image of "+ln+" under ASCII lower-casing")
+						}
+						ec.st.Assume(Implies(ec.e().inL(s, ln), ec.e().inL(r, name)))
+					}
+				}
+			}
+			for _, a := range t.Args {
+				walk(a)
+			}
+		}
+		for _, h := range ec.st.pc {
+			walk(h)
+		}
+		ec.e().trusted["std:strings.ToLower (on ASCII-only input: bytewise lower-casing)"] = true
+		return r
+	}
 	stdModels["strings.TrimSpace"] = func(ec *evalCtx, call *ast.CallExpr, recv Value, args []Value) Value {
 		return trimSpaceModel(ec, scalar(args[0]))
 	}
